@@ -483,7 +483,10 @@ func vh_C16_calls(a []int) {
 	_, e7 := UnpackRule([]string{"ALLOW", "*"})
 	env := &Envelope{}
 	e8 := env.SetPayload(Link{Type: "link", Name: "n", ByProducts: map[string]interface{}{"stdout": vPick("stdout", "plain", "with\nnewline")}})
-	vObserve("calls", e1 == nil, e2 == nil, e3 == nil, e4 == nil, e5 == nil, e6 == nil, e7 == nil, e8 == nil)
+	vhFiles = map[string][]byte{}
+	e9 := md.Dump("c16.link")
+	_, e10 := LoadMetadata("c16.link")
+	vObserve("calls", e1 == nil, e2 == nil, e3 == nil, e4 == nil, e5 == nil, e6 == nil, e7 == nil, e8 == nil, e9 == nil, e10 == nil)
 	vReach("C16.end")
 }
 
